@@ -279,13 +279,16 @@ class Ctx:
 
     # verdicts ---------------------------------------------------------------
     def violation(self, fingerprint, what, replay=None, found_input=True):
+        if not found_input and sum(1 for v in self.violations if not v['found_input']) >= 5:
+            return          # enough disagreements recorded; keep looking for a concrete failing input
         self.violations.append(dict(fingerprint=fingerprint, what=what, replay=replay, found_input=found_input))
 
-    def n_new(self):
-        """violations that are not listed as known findings (used for early exit)"""
+    def n_new(self, with_input_only=False):
+        """violations that are not listed as known findings (used for early exit); with_input_only: count only those that come
+        with a concrete failing input, so that the search for one continues after a mere model / implementation disagreement"""
         if not hasattr(self, '_known'):
             self._known = {f['fingerprint'] for f in load_findings() if f['property'] == self.prop and f['status'] == 'known'}
-        return sum(1 for v in self.violations if v['fingerprint'] not in self._known)
+        return sum(1 for v in self.violations if v['fingerprint'] not in self._known and (v['found_input'] or not with_input_only))
 
     def broken(self, name, detail=''):
         self.build_broken.append(dict(name=name, detail=detail[:4000]))
